@@ -41,7 +41,7 @@ size_t g_replay_pos = 0;
 // translation units and re-enter the edge callback from inside the scheduler.
 // ... and no malloc/realloc either: the sanitizers intercept them, and ThreadSanitizer would see the
 // scheduler's own bookkeeping as unsynchronised heap writes of the simulated threads.
-constexpr size_t MAX_TAKEN = size_t(1) << 20;
+constexpr size_t MAX_TAKEN = size_t(1) << 22;
 Switch g_taken[MAX_TAKEN];
 size_t g_ntaken = 0;
 uint64_t g_pct_points[16];
@@ -244,6 +244,15 @@ int decide(int me, int kind) {
         return best;
     }
 
+    // The switch log is finite: a very long run under a high preemption rate stops being preempted at edges once half of
+    // the log is used, and at op boundaries once three quarters are used (deterministic; forced and exit switches remain).
+    if (kind == K_EDGE && g_ntaken > MAX_TAKEN / 2) {
+        g_countdown = UINT64_MAX;
+        return me;
+    }
+    if (kind == K_OP && g_ntaken > (MAX_TAKEN / 4) * 3) {
+        return me;
+    }
     if (kind == K_OP) {
         if (g_cfg.p_op > 0 && rnd01() < g_cfg.p_op) {
             const int t = pick_other(me);
@@ -266,7 +275,7 @@ int decide(int me, int kind) {
 
 void record(uint64_t idx, int t) {
     if (g_ntaken >= MAX_TAKEN) {
-        say("SIM-STUCK more than 2^20 switches in one run\n");
+        say("SIM-STUCK more than 2^22 switches in one run\n");
         _exit(3);
     }
     g_taken[g_ntaken++] = Switch{idx, t};
